@@ -5,7 +5,7 @@ file in several notations / symlinks planted at marker locations) and a history 
 identifier reads, forced regenerations, register / unregister / marker deletions, environment events
 between operations (external deletion, planted symlinks, directory removed or recreated, subscription
 identity appearing or disappearing) and injected I/O faults (the n-th write-open / remove of an operation
-fails with ENOSPC / EIO / EACCES).  The real helpers of insights.client.utilities run against a real scratch
+fails with ENOSPC / EIO / EACCES / EROFS / EDQUOT / EPERM).  The real helpers of insights.client.utilities run against a real scratch
 directory; uuid, clock and the subscription-manager peer are simulated; an audit-hook monitor records every
 write-open so "an existing identifier file is never rewritten by a read" is observed, not inferred.
 """
@@ -30,7 +30,8 @@ from insights.client.constants import InsightsConstants as constants   # noqa: E
 
 MARKERS = [".registered", ".unregistered"]
 ID_KINDS = ["canonical", "canonical", "legacy", "upper", "newline", "padded", "empty", "garbage", "nonv4", "blank"]
-ERRNOS = {"ENOSPC": errno.ENOSPC, "EIO": errno.EIO, "EACCES": errno.EACCES}
+ERRNOS = {"ENOSPC": errno.ENOSPC, "EIO": errno.EIO, "EACCES": errno.EACCES, "EROFS": errno.EROFS, "EDQUOT": errno.EDQUOT,
+          "EPERM": errno.EPERM}
 
 
 _BASE = [None]
@@ -93,7 +94,7 @@ def gen_case(st, tier):
                 if r < 0.3:
                     files[m] = "file"
                 elif r < 0.42:
-                    files[m] = rp.choice(["link_file", "link_dangling", "link_other", "link_dir"])
+                    files[m] = rp.choice(["link_file", "link_dangling", "link_other", "link_dir", "link_twin"])
         dirs.append({"state": state, "files": files})
     idk = rp.choice(["absent", "absent"] + ID_KINDS)
     case = {"w": "w5", "dirs": dirs, "id": {"kind": idk, "seed": rp.getrandbits(32)},
@@ -121,7 +122,7 @@ def gen_case(st, tier):
                 op = {"op": "env_rm", "dir": d, "file": rp.choice(MARKERS)}
             elif e < 0.5:
                 op = {"op": "env_link", "dir": d, "file": rp.choice(MARKERS),
-                      "target": rp.choice(["file", "dangling", "other", "dir"])}
+                      "target": rp.choice(["file", "dangling", "other", "dir", "twin"])}
             elif e < 0.6:
                 op = {"op": "env_rmdir", "dir": d}
             elif e < 0.72:
@@ -186,6 +187,12 @@ class Env(object):
                 t = os.path.join(od, "linked-%d" % self.nlink)
                 with open(t, "w") as f:
                     f.write("OTHER-%d" % self.nlink)
+        elif target == "twin":
+            # the same-named marker of the other configuration directory (a legacy directory "merged" by links);
+            # that file is legitimately written and removed by the operations themselves, so it is not tracked as a
+            # victim -- the link itself must still be replaced by a marker operation
+            os.symlink(os.path.join(self.dirs[1 - d], fname), path)
+            return
         else:
             t = os.path.join(self.outside, "dir-%d" % self.nlink)
             os.makedirs(t)
@@ -382,10 +389,12 @@ def run_case(case):
                                                "change happened in between (config dir %s)" % (k, ret, last_id, "absent" if absent else "present")))
                             if not may_change:
                                 probe("reads_checked_for_stability")
+                        # an identifier that was *returned* is the machine's identifier from now on, whatever happened
+                        # inside the operation (on this tree a faulted operation raises and returns nothing)
                         last_id = ret
                         may_change = False
                         if faulted:
-                            may_change, why_change = True, "write of the identifier failed (injected fault)"
+                            probe("identifier_returned_despite_fault")
                     elif name == "regen" or faulted:
                         may_change, why_change = True, "operation failed"
                     if name == "read" and id_before:
@@ -504,7 +513,7 @@ class C17(Check):
             "40) operations: generate_machine_id() read / new=True, write_registered_file, write_unregistered_file, delete_*_file, "
             "environment events between operations (marker deleted, symlink planted, directory removed/recreated, subscription "
             "identity appearing/disappearing, identifier file deleted or rewritten externally) x injected faults (n-th write-open / "
-            "remove inside an operation fails with ENOSPC/EIO/EACCES, 35% of cases); invariants after every operation; non-trivial = "
+            "remove inside an operation fails with ENOSPC/EIO/EACCES/EROFS/EDQUOT/EPERM, 35% of cases); invariants after every operation; non-trivial = "
             "history longer than one operation; distinct = digest of (returns, durable state after every step)")
     real_vs_stub = {
         "insights.client.utilities.generate_machine_id / write_registered_file / write_unregistered_file / delete_*_file / write_to_disk": "real",
